@@ -436,11 +436,13 @@ where
         let mut sss = SliceSubmode::empty();
         let sss_bits: u8 = reader.read_bits(2)?;
 
-        if sss_bits & 0x01 != 0 {
+        // Bit 1 of SSS is the first one transmitted, i.e. the most significant
+        // of the two bits read: rectangular slices. Bit 2: arbitrary slice ordering.
+        if sss_bits & 0x02 != 0 {
             sss |= SliceSubmode::RECTANGULAR_SLICES;
         }
 
-        if sss_bits & 0x02 != 0 {
+        if sss_bits & 0x01 != 0 {
             sss |= SliceSubmode::ARBITRARY_ORDER;
         }
 
